@@ -3,7 +3,9 @@
 Part A: the five policies of components/rate_limiter/policy.py (step contracts, truthfulness of
         time_until_available, interval-bound lemmas over the step contracts).
 Part B: RateLimitedEntity / NullRateLimiter / Inductor handlers (exactly-once accounting, order).
-Part C: DistributedRateLimiter (window id, sync test).
+Part C: DistributedRateLimiter (ctor, window id, sync test, check_and_increment / handle_event generators against the
+        real KVStore with every other caller running at the yields; atomicity clauses gated on DRL_ATOMIC).
+Part D: the rate-limit decision of APIGateway._rate_limit_and_route and Sidecar._handle_request.
 See DESIGN.md section 3-C10.
 """
 from pyvc.spec import *
@@ -204,7 +206,22 @@ PROPERTY = {
         "lemmas state the induction step of the interval bounds over the proved step contracts; the induction over the "
         "sequence of calls itself is the standard argument (not mechanised); the counting step of the sliding-window lemma "
         "(admissions inside the window are a sub-multiset of the log) is stated, not derived",
-        "DistributedRateLimiter.check_and_increment / handle_event (generators over an untyped backing store) are not under contract",
+        "DistributedRateLimiter: the backing store is a KVStore without capacity limit whose values under the counter keys "
+        "are non-negative ints (KVStore.get/put/increment run inlined); during every store latency any other request "
+        "of this or of another limiter sharing the store may run (all non-const fields havoc'd at the yield)",
+        "DistributedRateLimiter._get_counter_key (an f-string) is used as an uninterpreted function of (key_prefix, "
+        "window_id); that it is injective in the window id (decimal rendering) is not proved",
+        "DistributedRateLimiter, atomicity clauses (`an-admission-raises-the-shared-counter-atomically-by-one`, store "
+        "guarantee `shared-window-counters-never-decrease`, lemma distributed-at-most-limit-per-window-across-all-callers, "
+        "bounded stand-in distributed-limit-under-overlapping-store-round-trips) are active only when check_and_increment "
+        "uses the store's atomic increment (fixes/C10_distributed-atomic-increment.diff); on the unrepaired tree the "
+        "read-then-write over-admits under overlapping round trips (open finding, triage/c10_distributed_race.py); the "
+        "rely on the other callers is the guarantee proved for this code (all callers run DistributedRateLimiter with the "
+        "same global_limit)",
+        "APIGateway._select_backend/_forward_request and Sidecar._check_circuit_timeout/_forward_request are interface "
+        "stubs (arbitrary results; _forward_request counts one routed request): only the rate-limit decision of "
+        "APIGateway._rate_limit_and_route and Sidecar._handle_request is under contract; the forward stamp of "
+        "DistributedRateLimiter.handle_event (not in the past) is C07's clause",
     ],
 }
 
@@ -264,7 +281,39 @@ fn(TokenBucketPolicy, "try_acquire", args={"now": TIME}, ensures=[
         s.self._tokens == tb_avail(s.old(s.self), ns(s.now)) - ite(s.result, 1, 0)),
     ("refill-instant", lambda s: (s.self._last_refill_time is not None)
         and ns(s.self._last_refill_time) == tb_last(s.old(s.self), ns(s.now))),
+    # statement (at most `capacity` admits at one instant), independent of how the refill clock is kept: what the
+    # bucket offers at the instant of the call goes down by exactly the admitted token - a stale refill clock would
+    # hand the token straight back from the idle time before `now`
+    ("an-admit-uses-up-one-token-at-that-instant", lambda s:
+        tb_avail(s.self, ns(s.now)) == tb_avail(s.old(s.self), ns(s.now)) - ite(s.result, 1, 0)),
 ])
+
+
+def probe_idle_burst(policy, t_probe, t_burst):
+    """The interaction named in the statement, run on the REAL policy code: ask for the wait (possibly on a full
+    bucket), stay idle, then two requests at one later instant."""
+    policy.time_until_available(t_probe)
+    first = policy.try_acquire(t_burst)
+    second = policy.try_acquire(t_burst)
+    return (first, second)
+
+
+def probe_task(K, avail):
+    fn("specs.C10", "probe_idle_burst", kind="function", label=K.__name__,
+       args={"policy": Ref(K), "t_probe": TIME, "t_burst": TIME},
+       requires=[lambda s: (s.policy._last_refill_time is not None) and
+                 ((ns(s.t_probe) >= ns(s.policy._last_refill_time)) & (ns(s.t_burst) >= ns(s.t_probe)))],
+       ensures=[
+        ("a-probe-and-an-idle-period-do-not-create-tokens", lambda s: iff(
+            s.result[0], avail(s.old(s.policy), ns(s.t_burst)) >= 1)),
+        ("a-burst-at-one-instant-spends-one-token-per-admit", lambda s: iff(
+            s.result[1], avail(s.old(s.policy), ns(s.t_burst)) >= 2)
+            & (avail(s.policy, ns(s.t_burst)) == avail(s.old(s.policy), ns(s.t_burst))
+               - ite(s.result[0], 1, 0) - ite(s.result[1], 1, 0))),
+    ])
+
+
+probe_task(TokenBucketPolicy, lambda o, t: tb_avail(o, t))
 
 
 def monotone_now(field):
@@ -445,8 +494,12 @@ fn(AdaptivePolicy, "try_acquire", args={"now": TIME}, ensures=[
         s.self._tokens == ad_avail(s.old(s.self), ns(s.now)) - ite(s.result, 1, 0)),
     ("refill-instant", lambda s: (s.self._last_refill_time is not None)
         and ns(s.self._last_refill_time) == tb_last(s.old(s.self), ns(s.now))),
+    ("an-admit-uses-up-one-token-at-that-instant", lambda s:
+        ad_avail(s.self, ns(s.now)) == ad_avail(s.old(s.self), ns(s.now)) - ite(s.result, 1, 0)),
     ("rate-untouched", lambda s: unchanged(s, s.self, "_current_rate", "rate_history")),
 ])
+
+probe_task(AdaptivePolicy, lambda o, t: ad_avail(o, t))
 
 fn(AdaptivePolicy, "time_until_available", args={"now": TIME}, requires=[monotone_now("_last_refill_time")], ensures=[
     ("wait-nonnegative", lambda s: ns(s.result) >= 0),
@@ -457,6 +510,8 @@ fn(AdaptivePolicy, "time_until_available", args={"now": TIME}, requires=[monoton
         ns(s.result) > 0, ad_avail(s.self, ns(s.now) + ns(s.result) + 1) >= 1)),
     ("asking-does-not-change-availability", lambda s: True if s.old(s.self)._last_refill_time is None else
         forall(Int, lambda t: implies(t >= ns(s.now), ad_avail(s.self, t) == ad_avail(s.old(s.self), t)))),
+    ("first-call-starts-the-clock", lambda s: (s.self._last_refill_time is not None)
+        and ns(s.self._last_refill_time) == tb_last(s.old(s.self), ns(s.now))),
     ("rate-untouched", lambda s: unchanged(s, s.self, "_current_rate", "rate_history")),
 ])
 
@@ -930,13 +985,65 @@ entity_contracts(
 # ============================================================================ C. distributed limiter (local part)
 from happysimulator.components.rate_limiter.distributed import DistributedRateLimiter  # noqa: E402
 
-cls(DistributedRateLimiter, fields={"_downstream": Ref(Entity), "_backing_store": Ref(Entity), "_global_limit": Int,
+import inspect as _inspect  # noqa: E402
+from happysimulator.components.datastore.kv_store import KVStore  # noqa: E402
+
+# Repair gate (fixes/C10_distributed-atomic-increment.diff): the shared window counter is raised by an atomic
+# increment of the store instead of a read followed, one store latency later, by a write of the stale count + 1.
+DRL_ATOMIC = "increment(key)" in _inspect.getsource(DistributedRateLimiter.check_and_increment)
+
+# The backing store: the real KVStore (get / put / increment run inlined), holding the window counters.
+COUNTS = Map(Str, Int)
+cls(KVStore, fields={"_read_latency": Real, "_write_latency": Real, "_delete_latency": Real, "_capacity": Opt(Int),
+                     "_data": COUNTS, "_insertion_order": Seq(Str), "_reads": Int, "_writes": Int, "_deletes": Int,
+                     "_hits": Int, "_misses": Int, "_evictions": Int},
+    const=["_read_latency", "_write_latency", "_delete_latency", "_capacity"],
+    inv=[("latencies-nonneg", lambda o: (o._read_latency >= 0) & (o._write_latency >= 0)),
+         ("window-counters-nonnegative", lambda o: forall(Str, lambda k: o._data.get(k, 0) >= 0))],
+    # rely/guarantee between all callers sharing the store (closed under composition): what every step of
+    # check_and_increment must keep, and what it may assume of the steps of the other requests in flight.
+    # On the unrepaired tree the write of a stale count + 1 LOWERS the counter (lost update): gated.
+    guarantee=[("shared-window-counters-never-decrease", lambda old, new: forall(Str, lambda k:
+                new._data.get(k, 0) >= old._data.get(k, 0)))] if DRL_ATOMIC else [])
+
+cls(DistributedRateLimiter, fields={"_downstream": Ref(Entity), "_backing_store": Ref(KVStore), "_global_limit": Int,
                                     "_window_size": Real, "_key_prefix": Str, "_local_threshold": Real,
                                     "_local_window_id": Opt(Int), "_local_count": Int, "_last_known_global_count": Int,
                                     "_requests_received": Int, "_requests_forwarded": Int, "_requests_dropped": Int,
                                     "_store_reads": Int, "_store_writes": Int, "_local_rejections": Int,
-                                    "_global_rejections": Int},
+                                    "_global_rejections": Int,
+                                    "received_times": Seq(TIME), "forwarded_times": Seq(TIME), "dropped_times": Seq(TIME),
+                                    "global_counts": Seq(Tuple(TIME, Int))},
+    const=["_downstream", "_backing_store", "_global_limit", "_window_size", "_key_prefix", "_local_threshold"],
     inv=[("config", lambda o: (o._global_limit >= 1) & (o._window_size > 0) & (o._local_threshold > 0) & (o._local_threshold <= 1))])
+
+_ENTITY_INIT = [Entity.__init__]
+
+
+def _attached(s):
+    """Entity.__init__ without the `_clock = None` store (the clock is injected before any handler runs: common.py
+    types Entity._clock as a non-optional reference)"""
+    def _init(self, name):
+        self.name = name
+    Entity.__init__ = _init
+    return []
+
+
+def _detach(s):
+    Entity.__init__ = _ENTITY_INIT[0]
+
+
+# the `config` invariant (limit >= 1, window > 0, threshold in (0, 1]) is what the constructor validates
+ctor(DistributedRateLimiter, args={"name": Str, "downstream": Ref(Entity), "backing_store": Ref(KVStore), "global_limit": Int,
+                                   "window_size": Real, "key_prefix": Str, "local_threshold": Real},
+     setup=_attached, teardown=_detach, ensures=[
+    ("starts-with-no-window-and-zero-counters", lambda s: (s.self._local_window_id is None) & (s.self._local_count == 0)
+        & (s.self._last_known_global_count == 0) & (s.self._requests_received == 0) & (s.self._requests_forwarded == 0)
+        & (s.self._requests_dropped == 0)),
+    ("configuration-stored", lambda s: (s.self._global_limit == s.global_limit) & (s.self._window_size == s.window_size)
+        & same(s.self._backing_store, s.backing_store) & same(s.self._downstream, s.downstream))],
+     raises={ValueError: [("only-invalid-configuration", lambda s: (s.global_limit < 1) | (s.window_size <= 0)
+                           | (s.local_threshold <= 0) | (s.local_threshold > 1))]})
 
 fn(DistributedRateLimiter, "_get_window_id", args={"now": TIME}, ensures=[
     ("now-lies-in-the-aligned-window-of-that-id", lambda s: (s.result * s.self._window_size <= secs(ns(s.now)))
@@ -949,6 +1056,220 @@ fn(DistributedRateLimiter, "_should_sync", ensures=[
         s.result, s.self._local_count >= (s.self._global_limit - s.self._last_known_global_count) * s.self._local_threshold)),
     ("pure", lambda s: unchanged(s, s.self)),
 ])
+
+# ---- check_and_increment / handle_event: generators; at every yield (store latency) any other request of this or
+# of another limiter sharing the store may run (all non-const fields are havoc'd, the store keeps its guarantee).
+# The counter key is an (uninterpreted) function of prefix and window id: the f-string itself is not modelled.
+_KEYF = z3.Function("c10_counter_key", z3.StringSort(), z3.IntSort(), z3.StringSort())
+
+
+def drl_key(o, now):
+    """key of the shared counter that an arrival at `now` is charged to: the one of the aligned window of now"""
+    return Str.wrap(_KEYF(Str.unwrap(o._key_prefix), num(o._get_window_id(now))))
+
+
+stub_of(DistributedRateLimiter, "_get_counter_key", returns=Str, modifies=[], ensures=[
+    lambda s: mk_bool(Str.unwrap(s.result) == _KEYF(Str.unwrap(s.self._key_prefix), num(s.window_id)))])
+
+DRL_YIELDS = dict(stable=[("Entity", "_clock")])
+DRL_FOCUS = lambda s: [s.self._backing_store]       # noqa: E731
+DRL_REQ = [("backing-store-unbounded", lambda s: s.self._backing_store._capacity is None)]
+
+
+def _yielded(s):
+    """this path has passed a yield (the final atomic segment does not start at function entry)"""
+    return s._seg is not s._old
+
+
+def _cnt(store, key):
+    return store._data.get(key, 0)
+
+
+def _drl_admission_clauses():
+    cl = [
+        # statement: never more than the limit per window across all callers sharing the store
+        ("admitted-only-while-the-shared-counter-of-its-window-is-within-the-limit", lambda s: implies(
+            s.result, (_cnt(s.self._backing_store, drl_key(s.self, s.now)) <= s.self._global_limit)
+            & (_cnt(s.self._backing_store, drl_key(s.self, s.now)) >= 1))),
+        ("an-admission-leaves-its-count-in-the-shared-counter", lambda s: implies(
+            s.result, _cnt(s.self._backing_store, drl_key(s.self, s.now)) == s.self._last_known_global_count)),
+        ("only-the-counter-of-the-window-of-now-is-written", lambda s: forall(Str, lambda k: implies(
+            mk_bool(Str.unwrap(k) != Str.unwrap(drl_key(s.self, s.now))),
+            _cnt(s.self._backing_store, k) == _cnt(s.pre(s.self._backing_store), k)))),
+        # local counters are reconciled without double counting
+        ("local-count-counts-each-own-admission-once", lambda s: implies(
+            s.result, s.self._local_count == s.pre(s.self)._local_count + 1)),
+        ("a-rejection-is-counted-once", lambda s: implies(Not(s.result), (
+            s.self._local_rejections + s.self._global_rejections
+            == s.pre(s.self)._local_rejections + s.pre(s.self)._global_rejections + 1))),
+        ("an-admission-is-no-rejection", lambda s: implies(s.result, (
+            s.self._local_rejections + s.self._global_rejections
+            == s.pre(s.self)._local_rejections + s.pre(s.self)._global_rejections))),
+        ("rejected-without-asking-the-store-only-when-the-window-is-known-to-be-full", lambda s: implies(
+            Not(_yielded(s)), Not(s.result) & (s.self._last_known_global_count >= s.self._global_limit))),
+        ("request-counters-untouched", lambda s: unchanged_since(s, "_requests_received", "_requests_forwarded",
+                                                                  "_requests_dropped")),
+    ]
+    if DRL_ATOMIC:
+        cl += [
+            # each admission takes a slot of its own: in the atomic step that admits, the shared counter of the window
+            # goes up by exactly one from the value every other caller left there (no lost update, no double count)
+            ("an-admission-raises-the-shared-counter-atomically-by-one", lambda s: implies(
+                s.result, _cnt(s.self._backing_store, drl_key(s.self, s.now))
+                == _cnt(s.pre(s.self._backing_store), drl_key(s.self, s.now)) + 1)),
+        ]
+    return cl
+
+
+fn(DistributedRateLimiter, "check_and_increment", args={"now": TIME}, focus=DRL_FOCUS, requires=DRL_REQ,
+   uses=[(DistributedRateLimiter, "_get_counter_key")],
+   yields=Yields(at_yield=[
+       ("store-delay-nonnegative", lambda s, y: y >= 0),
+       ("nothing-decided-before-the-store-answered", lambda s, y: unchanged_since(s, "_local_rejections", "_global_rejections")),
+   ], **DRL_YIELDS),
+   ensures=_drl_admission_clauses())
+
+
+def unchanged_since(s, *fields):
+    out = True
+    for f in fields:
+        out = out & (getattr(s.self, f) == getattr(s.pre(s.self), f))
+    return out
+
+
+def _drl_forward(s):
+    """statement: a forwarded request is forwarded exactly once; a refused one is dropped (exactly once)"""
+    o, pre = s.self, s.pre(s.self)
+    d_fwd, d_drop = o._requests_forwarded - pre._requests_forwarded, o._requests_dropped - pre._requests_dropped
+    r = s.result
+    if len(r) == 0:
+        return (d_fwd == 0) & (d_drop == 1)
+    if len(r) != 1:
+        return False
+    e = r[0]
+    return (d_fwd == 1) & (d_drop == 0) & same(e.target, o._downstream) & Not(e._cancelled) \
+        & (e.event_type == "forward::" + s.old(s.event).event_type)     # (stamp not in the past: C07)
+
+
+fn(DistributedRateLimiter, "handle_event", args={"event": EV}, focus=DRL_FOCUS, requires=DRL_REQ,
+   uses=[(DistributedRateLimiter, "_get_counter_key")],
+   yields=Yields(at_yield=[
+       ("store-delay-nonnegative", lambda s, y: y >= 0),
+       ("received-counted-once-on-arrival", lambda s, y: s.self._requests_received
+           == s.pre(s.self)._requests_received + (0 if _yielded(s) else 1)),
+       ("nothing-decided-before-the-store-answered", lambda s, y: unchanged_since(s, "_requests_forwarded", "_requests_dropped")),
+   ], keep=lambda s, y: [s.event], **DRL_YIELDS),      # the request being handled belongs to this process
+   ensures=[
+    ("forwarded-or-dropped-exactly-once", _drl_forward),
+    ("received-counted-once-on-arrival", lambda s: s.self._requests_received
+        == s.pre(s.self)._requests_received + (0 if _yielded(s) else 1)),
+    ("time-series-follow-the-counters", lambda s: (
+        slen(s.self.forwarded_times) - slen(s.pre(s.self).forwarded_times)
+        == s.self._requests_forwarded - s.pre(s.self)._requests_forwarded)
+        & (slen(s.self.dropped_times) - slen(s.pre(s.self).dropped_times)
+           == s.self._requests_dropped - s.pre(s.self)._requests_dropped)),
+    # the request is forwarded iff its window's shared counter admitted it (clauses of check_and_increment, inlined)
+    ("forwarded-iff-admitted-dropped-iff-rejected", lambda s: (
+        s.self._local_count - s.pre(s.self)._local_count == s.self._requests_forwarded - s.pre(s.self)._requests_forwarded)
+        & (s.self._local_rejections + s.self._global_rejections - s.pre(s.self)._local_rejections
+           - s.pre(s.self)._global_rejections == s.self._requests_dropped - s.pre(s.self)._requests_dropped)),
+    ("a-forward-leaves-its-count-in-the-shared-counter", lambda s: implies(
+        len(s.result) == 1, _cnt(s.self._backing_store, drl_key(s.self, s.old(s.event).time))
+        == s.self._last_known_global_count)),
+    ("forwarded-only-while-the-shared-counter-of-its-window-is-within-the-limit", lambda s: implies(
+        len(s.result) == 1, _cnt(s.self._backing_store, drl_key(s.self, s.event.time)) <= s.self._global_limit)),
+] + ([("a-forward-raises-the-shared-counter-atomically-by-one", lambda s: implies(
+        len(s.result) == 1, _cnt(s.self._backing_store, drl_key(s.self, s.event.time))
+        == _cnt(s.pre(s.self._backing_store), drl_key(s.self, s.event.time)) + 1))] if DRL_ATOMIC else []))
+
+
+def _drl_limit_lemma():
+    """Induction step of `at most global_limit admissions per window across all callers` over the proved step
+    contracts: the shared counter c of the window never decreases (store guarantee), an admitting step raises it by
+    exactly one and leaves it <= limit.  Potential: admissions n <= c; at every admission c <= limit."""
+    n, c, c_pre, c_post, lim = (fresh(Int, x) for x in ("n", "c", "c_pre", "c_post", "limit"))
+    adm = fresh(Bool, "admitted")
+    assume((n >= 0) & (n <= c) & (lim >= 1))
+    assume(c_pre >= c)                                                 # other callers' steps since (guarantee)
+    assume(implies(adm, (c_post == c_pre + 1) & (c_post <= lim)))      # admitting step
+    assume(implies(Not(adm), c_post >= c_pre))                         # any other step
+    n2 = n + ite(adm, 1, 0)
+    oblige("admissions-never-exceed-the-shared-counter", n2 <= c_post)
+    oblige("at-most-limit-admissions-per-window", implies(adm, n2 <= lim))
+
+
+if DRL_ATOMIC:
+    lemma("distributed-at-most-limit-per-window-across-all-callers", _drl_limit_lemma)
+
+
+# ============================================================================ D. rate limiting inside other components
+# APIGateway (per-route policy) and Sidecar consult a RateLimiterPolicy and drop what it refuses: each request asks
+# the policy exactly once, at the current instant; a refused request is dropped and counted exactly once and is not
+# forwarded; an admitted request is never counted as rate limited.
+from happysimulator.components.microservice.api_gateway import APIGateway, RouteConfig  # noqa: E402
+from pyvc import ctx as _pyvc_ctx  # noqa: E402
+
+cls(RouteConfig, fields={"name": Str, "backends": Seq(Ref(Entity)), "rate_limit_policy": OptRef(RateLimiterPolicy),
+                         "auth_required": Bool, "timeout": Opt(Real)})
+cls(APIGateway, fields={"_requests_routed": Int, "_requests_rejected_rate_limit": Int, "_requests_no_backend": Int,
+                        "_total_requests": Int, "_next_request_id": Int})
+stub_of(APIGateway, "_select_backend", returns=Ref(Entity), modifies=[])
+stub_of(APIGateway, "_forward_request", returns=EVSEQ, modifies=["_requests_routed", "_next_request_id"], ensures=[
+    lambda s: s.self._requests_routed == s.old(s.self)._requests_routed + 1])
+
+
+def _trace(name):
+    return [r for r in _pyvc_ctx.cur().ghost_args.get("trace", []) if r[0] == name]
+
+
+def _gw_limits(s):
+    asks, fwds = _trace("RateLimiterPolicy.try_acquire"), _trace("APIGateway._forward_request")
+    o, old = s.self, s.old(s.self)
+    d_rej = o._requests_rejected_rate_limit - old._requests_rejected_rate_limit
+    d_nob, d_fwd = o._requests_no_backend - old._requests_no_backend, o._requests_routed - old._requests_routed
+    once = (d_rej + d_nob + d_fwd == 1) & (d_rej >= 0) & (d_nob >= 0) & (d_fwd >= 0) & (d_fwd == len(fwds))
+    pol = s.route.rate_limit_policy
+    if pol is None:
+        return once & (d_rej == 0) if len(asks) == 0 else False
+    if len(asks) != 1:
+        return False        # asking twice would spend two tokens on one request
+    _, vals, admitted = asks[0]
+    return once & same(vals["self"], pol) & (ns(vals["now"]) == now_ns(s.self)) \
+        & iff(admitted, d_rej == 0) & implies(Not(admitted), d_fwd == 0) \
+        & ((s.result is None) if len(fwds) == 0 else (s.result is not None))
+
+
+fn(APIGateway, "_rate_limit_and_route", args={"event": EV, "route_key": Str, "route": Ref(RouteConfig)},
+   uses=POLICY_IFACE + [(APIGateway, "_select_backend"), (APIGateway, "_forward_request")],
+   ensures=[("asks-the-route-policy-once-and-drops-what-it-refuses-exactly-once", _gw_limits)])
+
+
+from happysimulator.components.microservice.sidecar import Sidecar  # noqa: E402
+
+cls(Sidecar, fields={"_rate_limit_policy": OptRef(RateLimiterPolicy), "_total_requests": Int, "_rate_limited": Int,
+                     "_circuit_broken": Int, "_circuit_state": Any, "_next_request_id": Int})
+stub_of(Sidecar, "_check_circuit_timeout", modifies=["_circuit_state"])
+stub_of(Sidecar, "_forward_request", returns=EVSEQ, modifies=["_next_request_id"])
+
+
+def _sc_limits(s):
+    asks, fwds = _trace("RateLimiterPolicy.try_acquire"), _trace("Sidecar._forward_request")
+    o, old = s.self, s.old(s.self)
+    d_rej, d_cb = o._rate_limited - old._rate_limited, o._circuit_broken - old._circuit_broken
+    once = (d_rej + d_cb + len(fwds) == 1) & (d_rej >= 0) & (d_cb >= 0) & (o._total_requests == old._total_requests + 1)
+    pol = o._rate_limit_policy
+    if pol is None:
+        return once & (d_rej == 0) if len(asks) == 0 else False
+    if len(asks) != 1:
+        return False
+    _, vals, admitted = asks[0]
+    return once & same(vals["self"], pol) & (ns(vals["now"]) == now_ns(s.self)) & iff(admitted, d_rej == 0) \
+        & ((s.result is None) if len(fwds) == 0 else (s.result is not None))
+
+
+fn(Sidecar, "_handle_request", args={"event": EV},
+   uses=POLICY_IFACE + [(Sidecar, "_check_circuit_timeout"), (Sidecar, "_forward_request")],
+   ensures=[("asks-the-policy-once-and-drops-what-it-refuses-exactly-once", _sc_limits)])
 
 
 # ============================================================================ sliding window: the interval bound
@@ -1049,3 +1370,19 @@ def _float_boundary_grid(seed, tier):
 
 PROPERTY["bounded"] = [{"name": "float-boundary-grid", "bound": "150 (quick) / 1500 (thorough) random boundary-aligned arrival "
                         "grids x 5 policies, IEEE floats, native CPython", "fn": _float_boundary_grid}]
+
+
+def _distributed_schedules(seed, tier):
+    """End-to-end stand-in for the cross-request induction that the step contracts of check_and_increment leave to the
+    lemma: 1-3 DistributedRateLimiters on one KVStore under a real Simulation, random latencies, bursts and overlapping
+    store round trips; per aligned window no more than global_limit requests reach the sinks, every request is forwarded
+    or dropped exactly once (triage/c10_distributed_race.py, clean interpreter)."""
+    return run_native_script("triage/c10_distributed_race.py", 60 if tier == "quick" else 3000, seed)
+
+
+# Only with the repair (fixes/C10_distributed-atomic-increment.diff): on the unrepaired tree overlapping round trips
+# over-admit (open finding, triage/c10_distributed_race.py), see DRL_ATOMIC.
+if DRL_ATOMIC:
+    PROPERTY["bounded"].append({"name": "distributed-limit-under-overlapping-store-round-trips",
+                                "bound": "60 (quick) / 3000 (thorough) random schedules, 1-3 limiters x 3-25 arrivals, "
+                                "native Simulation", "fn": _distributed_schedules})
